@@ -21,7 +21,7 @@ PROPS = {
              "Sub-domain M (c01_model): isotropic 2-D/3-D grids (>= 8 points per axis) and connected bounded-degree random graphs, contrast <= 10, default amg and solver parameters with n in (3000,15000] or "
              "coarse_enough=500 with n in (1000,15000]: every coarsening x relaxation x Krylov method (x side) returns reported < 1e-8 within 100 iterations (+L-1), truthfully; kappa_inf(A) from a certificate verified in long double. "
              "non-trivial: >= 2 iterations and (>= 2 levels or a relaxation-only preconditioner). distinct = distinct decoded choice sequences (64-bit hash), united over shards. "
-             "A preconditioner that maps finite vectors to NaN/inf is counted (precond-nonfinite), not asserted. Known-finding region: F-recursion-gap (BiCGStab(L) and IDR(s): a case violating only the strict bound is counted as the finding; a gap above 1e-3 of the largest residual of the history still fails).",
+             "A preconditioner that maps finite vectors to NaN/inf is counted (precond-nonfinite), not asserted. Known-finding region: F-recursion-gap (BiCGStab(L) and IDR(s) runs that perform at least as many matrix-vector products as the numerical grade of (M, r0), M = A B resp. B A, Arnoldi sub-diagonal <= 1e-6: a class of inputs, nothing but the iteration budget is asserted inside; outside it the strict bound applies).",
         assumptions=["Eigen dense LU / eigenvalues are accurate on n <= 400", "long double (64-bit mantissa) residuals are exact relative to the double precision quantities compared",
                      "a breakdown exception (std::runtime_error from amgcl::precondition) means nothing was returned and nothing is claimed; such cases are counted by label",
                      "the constant 200 of the rounding allowance (DESIGN proposed 10) is calibrated: over 1.2e6 cases CG/BiCGStab/GMRES/FGMRES/LGMRES/Richardson stay below 0.004 x it"],
